@@ -124,6 +124,24 @@ SYNTH_FORMS = """
   throughput: 0.3333
   latency: 1.0
   port_pressure: [[1, '012']]
+- name: latonea
+  operands:
+  - class: register
+    name: xmm
+  - class: register
+    name: xmm
+  throughput: 1.0
+  latency: 1.0
+  port_pressure: [[1, '1']]
+- name: latthreea
+  operands:
+  - class: register
+    name: xmm
+  - class: register
+    name: xmm
+  throughput: 1.0
+  latency: 3.0
+  port_pressure: [[1, '0']]
 - name: thrb
   operands:
   - class: register
@@ -278,6 +296,14 @@ def make_case(cls, isa, arch, r, pools):
             lines.insert(r.randrange(len(lines) + 1), r.choice(PARTIAL[arch]))
         if r.random() < 0.4:
             lines.insert(r.randrange(len(lines) + 1), r.choice(UNKNOWN[isa]))
+    elif cls == "lcdtie":
+        # two loop-carried dependencies of the same (maximal) latency with different numbers of members: text and dict must show
+        # the same one in the LCD column
+        chain = ["latonea %xmm1, %xmm1"] * 3
+        single = ["latthreea %xmm2, %xmm2"]
+        lines = (chain + single) if r.random() < 0.5 else (single + chain)
+        if r.random() < 0.5:
+            lines.insert(r.randrange(len(lines) + 1), "%s tie" % cm)
     elif cls == "widecol":
         lines = [r.choice(WIDECOL[:2])] + [r.choice(WIDECOL[2:]) for _ in range(r.randrange(1, 4))]
         if r.random() < 0.5:
@@ -861,6 +887,7 @@ def floors(tier):
         f["class:" + c] = (2 if c in LEN_CLASSES else 3) if q else 60
     f["class:partial"] = 10 if q else 150
     f["class:widecol"] = 3 if q else 60
+    f["class:lcdtie"] = 2 if q else 30
     f["dict_taken_before_the_text_report"] = 80 if q else 1500
     f["class:len_marked_intonly"] = 1 if q else 20
     f["thirds_next_to_wide_cell"] = 3 if q else 60
@@ -887,7 +914,7 @@ def run_shard(spec, R):
         if spec["mode"] == "synth":
             with synth_model(work):
                 for i in range(spec["runs"]):
-                    case = make_case("partial" if i % 3 else "widecol", "x86", "csx", r, pools)
+                    case = make_case("lcdtie" if i % 6 == 1 else ("partial" if i % 3 else "widecol"), "x86", "csx", r, pools)
                     case["fixed"], case["ignore_unknown"] = bool(i & 1), bool(i & 2)
                     if case["cls"] == "widecol":
                         case["fixed"] = (i // 3) % 3 != 2  # uniform shares are where thirds come from
